@@ -466,7 +466,7 @@ def mutate(rec):
         cand = [j for j in range(len(d)) if d[j] not in ('nan', 'inf', '-inf') and Fraction(d[j]) != 0 and not m[j] and 0 < j < len(d) - 1]
         if not cand:
             return None
-        j = cand[len(cand) // 2]
+        j = max(cand, key=lambda t: Fraction(d[t]))      # the largest cell: far above the deep-coverage floor
         d[j] = rat(Fraction(d[j]) * BUMP)
         return rec
     if op == 'deep_sim':      # a statistical clause: the corruption must be gross (largest cell tripled)
